@@ -34,6 +34,7 @@ type Frame struct {
 	defers  []deferred
 	callInstr ssa.Instruction // call instruction in THIS frame awaiting a result
 	panicking bool
+	noAdvance bool // frame of a deferred call: its return does not advance the caller
 	pureEval  bool
 	symGuard  bool
 	depth     int
@@ -94,6 +95,7 @@ type State struct {
 	pendName string
 	spec     bool
 	gcCheck  bool // C14: check that pointer-carrying cells only live in pointer-typed memory
+	recovered bool
 	pinned   map[string]uint64 // variables fixed by concretization (copy-on-write)
 }
 
